@@ -74,7 +74,7 @@ theorem structComments_no_crash (fb : FactBase) (tf : TypeFact) :
   · simp [Outcome.isCrash]
   · split
     · simp [Outcome.isCrash]
-    · have := mapM'_no_crash specialComment (if tf.grouped then tf.groupDoc else tf.doc)
+    · have := mapM'_no_crash specialComment tf.doc
         (fun a _ => specialComment_no_crash a)
       simp only
       split <;> simp_all [Outcome.isCrash]
